@@ -7,7 +7,6 @@ import (
 
 	"github.com/cosmos/ibc-go/v11/modules/core/exported"
 	"github.com/cosmos/ibc-go/v11/testing/simapp"
-
 )
 
 // Hand-written proto.Message implementations so that real MsgCreateClient / MsgUpdateClient
@@ -16,14 +15,14 @@ import (
 
 type VerifClientState struct{ Type string }
 
-func (m *VerifClientState) Reset()                    { *m = VerifClientState{} }
-func (m *VerifClientState) String() string            { return "VerifClientState(" + m.Type + ")" }
-func (*VerifClientState) ProtoMessage()               {}
-func (*VerifClientState) XXX_MessageName() string     { return "verif.ClientState" }
-func (m *VerifClientState) Marshal() ([]byte, error)  { return []byte(m.Type), nil }
-func (m *VerifClientState) Unmarshal(b []byte) error  { m.Type = string(b); return nil }
-func (m *VerifClientState) ClientType() string        { return m.Type }
-func (m *VerifClientState) Validate() error           { return nil }
+func (m *VerifClientState) Reset()                   { *m = VerifClientState{} }
+func (m *VerifClientState) String() string           { return "VerifClientState(" + m.Type + ")" }
+func (*VerifClientState) ProtoMessage()              {}
+func (*VerifClientState) XXX_MessageName() string    { return "verif.ClientState" }
+func (m *VerifClientState) Marshal() ([]byte, error) { return []byte(m.Type), nil }
+func (m *VerifClientState) Unmarshal(b []byte) error { m.Type = string(b); return nil }
+func (m *VerifClientState) ClientType() string       { return m.Type }
+func (m *VerifClientState) Validate() error          { return nil }
 
 type VerifConsensusState struct{ Type string }
 
